@@ -45,7 +45,9 @@ def main():
         'exhaustive_uris': int(tot.get('exhaustive_uris', 0)), 'double_encoded_uris': int(tot.get('double_encoded_uris', 0)),
         'malformed_escape_uris_confinement_only': int(tot.get('malformed_escape_uris', 0)), 'served_after_decoding': int(tot.get('served_after_decoding', 0)),
         'http_status': tot.get('http_status', {}), 'templates': int(tot.get('templates', 0)), 'mqtt_worlds': int(tot.get('worlds', 0)),
-        'samples': tot.get('samples', []),
+        'samples': ['exhaustive lines %d, encoded argument lists %d' % (int(tot.get('exhaustive_lines', 0)), int(tot.get('encoded_argument_lists', 0))),
+                    'exhaustive URIs %d, served after decoding %d, status %s' % (int(tot.get('exhaustive_uris', 0)), int(tot.get('served_after_decoding', 0)), tot.get('http_status', {})),
+                    'templates %d, topics through MqttHandler in %d worlds' % (int(tot.get('templates', 0)), int(tot.get('worlds', 0)))],
     })
     c.assumptions += [
         'a quoted argument ends at the first occurrence of its quote character that is followed by a blank or the end of the line; for a line whose '
